@@ -94,7 +94,7 @@ class Evolver:
             nm = sg.Message(self.s.fresh("Msg"), r.chance(0.7))
             nested = r.chance(0.5)
             nm.parent = m if nested else None
-            for i in range(r.randint(1, 3)):
+            for i in range(r.randint(1, 3) if r.chance(0.85) else 0):  # sometimes a reserved, still empty message
                 nm.fields.append(sg.Field(i + 1 + r.below(3) * 10, "x_" + sg.letters(i), self.g.scalar() if r.chance(0.7) else sg.Array(self.g.scalar(), r.randint(1, 4), r.chance(0.6))))
             # field numbers must be unique
             seen = set()
